@@ -21,21 +21,21 @@ import (
 // ---------------------------------------------------------------------------------------------
 
 type prover struct {
-	eng     *bndEngine
-	fn      *ssa.Function
-	mem     *memInfo
-	facts   []constraint
-	defined map[string]bool
-	used    map[string]bool // assumptions / lemmas used
-	env     map[ssa.Value]linExpr
-	prefix  string
-	depth   int
-	at      ssa.Instruction
-	pendingNeq [][2]linExpr
-	override   map[string]string // "path@mergeVersion" -> version to use instead (join case split)
-	extraConds []Cond
-	pendingPhiInt [][2]ssa.Value // (phi, edge value) equalities for the current case
-	phiAlias      [][2]ssa.Value // non-integer phis standing for the edge value
+	eng           *bndEngine
+	fn            *ssa.Function
+	mem           *memInfo
+	facts         []constraint
+	defined       map[string]bool
+	used          map[string]bool // assumptions / lemmas used
+	env           map[ssa.Value]linExpr
+	prefix        string
+	depth         int
+	at            ssa.Instruction
+	pendingNeq    [][2]linExpr
+	override      map[string]string // "path@mergeVersion" -> version to use instead (join case split)
+	extraConds    []Cond
+	pendingPhiInt [][2]ssa.Value  // (phi, edge value) equalities for the current case
+	phiAlias      [][2]ssa.Value  // non-integer phis standing for the edge value
 	noInvFor      *ssa.BasicBlock // do not assume loop invariants of this loop (entry-edge proofs)
 	invAdded      map[int]bool
 	entryMap      func(path string) (string, bool) // call-site specialisation: entry versions of captured variables -> the caller's variables
@@ -79,13 +79,13 @@ func newBndEngine(w *World) *bndEngine {
 	}
 	// preconditions that callers must establish (checked at every static call site)
 	e.requires = map[string][]reqSpec{
-		"gostatsd.Bucket":            {{2, "int>=", 1, "shard count is positive"}, {2, "int<=", 1<<31 - 1, "shard count fits in 31 bits"}},
+		"gostatsd.Bucket":             {{2, "int>=", 1, "shard count is positive"}, {2, "int<=", 1<<31 - 1, "shard count fits in 31 bits"}},
 		"(*gostatsd.MetricMap).Split": {{1, "int>=", 1, "shard count is positive"}, {1, "int<=", 1<<31 - 1, "shard count fits in 31 bits"}},
 		"pkg/backends/otlp/internal/data.WithHistogramDataPointCumulativeBucketValues": {{0, "len>=", 1, "bucket map is not empty"}},
 	}
 	// configuration assumptions (the quantifier of C03/C04 ranges over accepted configurations)
 	e.fieldFacts = map[string]int64{
-		"BackendHandler.numWorkers":        1, // max-workers >= 1
+		"BackendHandler.numWorkers":         1, // max-workers >= 1
 		"DatagramReceiver.receiveBatchSize": 1, // receive-batch-size >= 1
 		"MetricPool.estimatedTags":          0, // estimated-tags >= 0 (a negative value aborts on the first metric of any content)
 	}
